@@ -40,7 +40,7 @@ inductive Cmd where
   | map (a f : Reg) | reduce (a f init : Reg) | innerProduct (a b : Reg)
   | beginFn (name : String) (params : List (String × Ann))
   | endFn (ret : Reg) (retAnn : STy)
-  | call (f : Reg) (args : List Reg)
+  | call (f : Reg) (args : List Reg) (kws : List (String × Reg) := [])    -- `f(*args, **kws)`, keywords in written order
   | nop                                                 -- binds a dead register (placeholder of a dropped command)
   deriving Repr, Inhabited
 
@@ -59,6 +59,7 @@ structure Frame where
   fid : Id
   name : String
   params : List (Id × Val)      -- NadaFunctionArg id and its type template
+  pnames : List String := []    -- parameter names, in declaration order
   deriving Repr, Inhabited
 
 abbrev M := ExceptT Err (StateM St)
@@ -401,7 +402,7 @@ def exec (regs : List RVal) (frames : List Frame) (c : Cmd) : M (List RVal × Li
       put p (.argRef pname fid ty)
       ps := ps ++ [(p, tmpl)]
       bound := bound ++ [.val (tmpl.withChild p)]
-    pure (bound, { fid := fid, name := name, params := ps } :: frames)
+    pure (bound, { fid := fid, name := name, params := ps, pnames := params.map (·.1) } :: frames)
   | .endFn ret retAnn =>
     match frames with
     | [] => throw .unsupported
@@ -415,15 +416,22 @@ def exec (regs : List RVal) (frames : List Frame) (c : Cmd) : M (List RVal × Li
           | .scalar t (some c) _ =>
             if t ≠ retAnn then throw .T else do
             put fr.fid (.function fr.name (fr.params.map (·.1)) c (.scalar retAnn.mirName))
-            pure ([.fn fr.fid retAnn fr.params.length], rest)
+            pure ([.fn fr.fid retAnn fr.pnames], rest)
           | _ => throw .T
       | some .dead | none => throw .dead
       | _ => throw .unsupported
-  | .call f args =>
+  | .call f args kws =>
     match regs[f]? with
-    | some (.fn fid ret np) => do
-      if args.length ≠ np then throw .T else
-      let vs ← args.mapM (getVal regs)
+    | some (.fn fid ret names) => do
+      -- `NadaFunction.__call__`: positional arguments first, then every remaining parameter — in
+      -- declaration order — must be given by keyword; nothing may be left over
+      if args.length > names.length then throw .T else
+      let rest := names.drop args.length
+      match rest.mapM (fun n => (kws.find? (·.1 == n)).map (·.2)) with
+      | none => throw .T
+      | some kwRegs =>
+      if kws.any (fun kv => !rest.contains kv.1) then throw .T else
+      let vs ← (args ++ kwRegs).mapM (getVal regs)
       let k ← alloc
       let ids ← childIds vs
       put k (.call ids fid (.scalar ret.mirName))
